@@ -263,13 +263,13 @@ func checkPackage(u *gengotypes.Universe, p gengotypes.Package, files []string, 
 	// must be built by every accessor)
 	accessors := []func() error{
 		func() error {
-			if got := strip(objNames(p.Types()), "_"); strings.Join(got, ",") != strings.Join(wantTypes, ",") {
+			if got := objNames(p.Types()); strings.Join(got, ",") != strings.Join(wantTypes, ",") {
 				return fmt.Errorf("%s: Types() = %v, package scope has %v", path, got, wantTypes)
 			}
 			return nil
 		},
 		func() error {
-			if got := strip(objNames(p.Constants()), "_"); strings.Join(got, ",") != strings.Join(wantConsts, ",") {
+			if got := objNames(p.Constants()); strings.Join(got, ",") != strings.Join(wantConsts, ",") {
 				return fmt.Errorf("%s: Constants() = %v, package scope has %v", path, got, wantConsts)
 			}
 			return nil
@@ -305,12 +305,22 @@ func checkPackage(u *gengotypes.Universe, p gengotypes.Package, files []string, 
 			return nil
 		},
 	}
+	accessors = append(accessors, func() error {
+		// the blank identifier names nothing
+		if o := p.Type("_"); o != nil {
+			return fmt.Errorf("%s: Type(\"_\") = %v, the blank identifier is not a package-scope name", path, o)
+		}
+		if o := p.Constant("_"); o != nil {
+			return fmt.Errorf("%s: Constant(\"_\") = %v, the blank identifier is not a package-scope name", path, o)
+		}
+		return nil
+	})
 	h := fnv.New32a()
 	h.Write([]byte(path + os.Getenv("VT_SEED")))
 	first := int(h.Sum32() % uint32(len(accessors)))
 	for i := range accessors {
 		if err := accessors[(first+i)%len(accessors)](); err != nil {
-			return fmt.Errorf("%w (accessor #%d of 6 was the first one called on the package)", err, first)
+			return fmt.Errorf("%w (accessor #%d of 7 was the first one called on the package)", err, first)
 		}
 	}
 	for _, n := range wantTypes {
@@ -541,7 +551,7 @@ func TestC13(t *testing.T) {
 			"Package.Imports, file directories); closure sub: every package of /repo's own dependency closure (std included) gets the same comparison; non-trivial = " +
 			"local declaration reusing a package-level name | generic type with methods | >=2 imports; distinct by JSON encoding (closure: per package)",
 		Assumptions: []string{
-			"blank-named entries of all three tables and `init` are ignored; interfaces are skipped for MethodsOf",
+			"blank-named functions and `init` are ignored (blank-named types and constants must be absent); interfaces are skipped for MethodsOf",
 			"go/types (Pkg().Scope(), Named.Method, Package.Imports) is the reference",
 		},
 	})
